@@ -257,6 +257,20 @@ def self_check(prog, rep, fi, q, fe, at, ctor, slot_of, how):
 
 
 # ---------------------------------------------------------------------------- SIGCOVER
+def _pos_domain(target, it, var):
+    """constants the loop variable `var` takes when `target` iterates over the tuple-of-tuples display `it`"""
+    if not isinstance(it, ast.Tuple):
+        return set()
+    if isinstance(target, ast.Name):
+        return {e.value for e in it.elts if isinstance(e, ast.Constant)}
+    if isinstance(target, ast.Tuple):
+        idx = next((i for i, t in enumerate(target.elts) if isinstance(t, ast.Name) and t.id == var), None)
+        if idx is None:
+            return set()
+        return {e.elts[idx].value for e in it.elts if isinstance(e, ast.Tuple) and len(e.elts) > idx and isinstance(e.elts[idx], ast.Constant)}
+    return set()
+
+
 def rule_sigcover(prog, rep, tier, anchor="parse.function", components=("args", "kwonlyargs", "kwarg")):
     fi = prog.fn(anchor)
     fd = fi.params()[0]
@@ -265,6 +279,7 @@ def rule_sigcover(prog, rep, tier, anchor="parse.function", components=("args", 
         sites = []
         for n in ast.walk(fi.node):
             hit = False
+            extra_guard = []
             if isinstance(n, ast.Attribute) and n.attr == comp and isinstance(n.value, ast.Attribute) and n.value.attr == "args" and isinstance(n.value.value, ast.Name) and n.value.value.id == fd:
                 hit = isinstance(n.ctx, ast.Load)
             elif isinstance(n, ast.Call) and isinstance(n.func, ast.Name) and n.func.id == "getattr" and len(n.args) == 2 and isinstance(n.args[1], ast.Name) \
@@ -276,9 +291,16 @@ def rule_sigcover(prog, rep, tier, anchor="parse.function", components=("args", 
                     gens = getattr(p, "generators", [])
                     for g in gens:
                         if var in names_in(g.target) and isinstance(g.iter, ast.Tuple):
-                            dom |= {c.value for c in ast.walk(g.iter) if isinstance(c, ast.Constant)}
+                            dom |= _pos_domain(g.target, g.iter, var)
+                        elif var in names_in(g.target) and isinstance(g.iter, ast.IfExp):
+                            a = _pos_domain(g.target, g.iter.body, var)
+                            b = _pos_domain(g.target, g.iter.orelse, var)
+                            dom |= a & b
+                            if comp in (a ^ b):
+                                extra_guard.append(g.iter.test)
+                                dom.add(comp)
                     if isinstance(p, ast.For) and var in names_in(p.target) and isinstance(p.iter, ast.Tuple):
-                        dom |= {c.value for c in ast.walk(p.iter) if isinstance(c, ast.Constant)}
+                        dom |= _pos_domain(p.target, p.iter, var)
                     p = getattr(p, "_parent", None)
                 hit = comp in dom
             if not hit:
@@ -299,7 +321,7 @@ def rule_sigcover(prog, rep, tier, anchor="parse.function", components=("args", 
                 in_test = True  # normalisation of the same field (dropping self/cls), not a flow into the result
             if in_test:
                 continue
-            guards = expr_guards(n, stop=fi.node)
+            guards = expr_guards(n, stop=fi.node) + [(t, True) for t in extra_guard]
             docdep = [t for t, pol in guards if names_in(t) & doc_names]
             sites.append((n, docdep))
         if not sites:
@@ -344,8 +366,27 @@ def rule_allpair(prog, rep, tier, anchor="gen.gen"):
         rep.violation(Finding("ALL-PAIR", anchor, "entry-filter", "the per-entry generator has a condition: entries can be skipped", loc(prog, g)))
     app = apps[0]
     name_expr = dump(app.args[0])
-    same = [x for x in ast.walk(g.elt) if isinstance(x, ast.expr) and x is not app.args[0] and dump(x) == name_expr]
-    if same:
+    # the expression the emitted definition is named by: values of the `*_name` keys handed to the emitter; when the
+    # value is a lambda parameter, the argument the lambda is applied to
+    naming = []
+    for d in ast.walk(g.elt):
+        if isinstance(d, ast.Dict):
+            for k, v in zip(d.keys, d.values):
+                if isinstance(k, ast.Constant) and isinstance(k.value, str) and k.value.endswith("_name"):
+                    if isinstance(v, ast.Name):
+                        lam = v
+                        while lam is not None and not (isinstance(lam, ast.Lambda) and v.id in {a.arg for a in lam.args.args}):
+                            lam = getattr(lam, "_parent", None)
+                        if lam is not None and isinstance(lam._parent, ast.Call) and lam._parent.func is lam and lam._parent.args:
+                            naming.append(lam._parent.args[[a.arg for a in lam.args.args].index(v.id)])
+                            continue
+                    naming.append(v)
+        elif isinstance(d, ast.keyword) and d.arg and d.arg.endswith("_name"):
+            naming.append(d.value)
+    if not naming:
+        raise AnalysisError("ALL-PAIR: cannot find the expression that names the emitted definition (a `*_name` argument of the emitter)")
+    same = [x for x in naming if dump(x) == name_expr]
+    if same and len(same) == len(naming):
         rep.holds("ALL-PAIR", "__all__ entry and emitted name are the same expression %s" % src(app.args[0], 50), loc(prog, app), "one append per mapping entry")
     else:
         rep.violation(Finding("ALL-PAIR", anchor, "name-mismatch", "the name appended to %s (%s) is not the expression the emitted definition is named by" % (lst, src(app.args[0], 50)), loc(prog, app)))
